@@ -1057,6 +1057,14 @@ func checkMain(t *testing.T) {
 		"wall_s":     wall,
 		"violations": len(reports),
 	}
+	if exit == 2 && len(reports) > 0 {
+		// Part of the batch went wrong (a worker was lost, a crash did not recur), but at least one
+		// violation was re-executed, minimised and reproduced in fresh processes: that stands on its
+		// own feet, and it is what the caller needs to hear.
+		fmt.Println("note: the trouble reported above concerns other runs of this batch; the violations listed were each reproduced in a fresh process")
+		cov["batch_trouble"] = "some runs of this batch could not be judged (lost worker or a crash that did not recur); the reported violations were each reproduced in a fresh process"
+		exit = 1
+	}
 	js, _ := json.MarshalIndent(ev, "", " ")
 	evPath := filepath.Join(outDir, "evidence", prop+".json")
 	if exit != 2 {
